@@ -374,10 +374,11 @@ const c12Watchdog = 3 * time.Second
 
 // c12Src is an upload source: `reads` chunks, then EOF or an error; counts its Close calls.
 type c12Src struct {
-	spec     c12SrcSpec
-	closeErr bool // an upload file (not the stream payload, whose Close failure GetBody reports)
-	pos      int
-	closes   int32
+	failedOnce bool
+	spec       c12SrcSpec
+	closeErr   bool // an upload file (not the stream payload, whose Close failure GetBody reports)
+	pos        int
+	closes     int32
 }
 
 func (s *c12Src) Read(p []byte) (int, error) {
@@ -388,6 +389,14 @@ func (s *c12Src) Read(p []byte) (int, error) {
 	if s.spec.fails {
 		if s.spec.soft {
 			return 0, io.ErrUnexpectedEOF
+		}
+		// every other hard-failing source reports its error ONCE and ends afterwards (like iotest.TimeoutReader):
+		// whoever met the error must not forget it by asking again
+		if s.spec.reads%2 == 0 {
+			if s.failedOnce {
+				return 0, io.EOF
+			}
+			s.failedOnce = true
 		}
 		return 0, errC12Src
 	}
@@ -406,6 +415,7 @@ func (s *c12Src) Close() error {
 
 // c12Body is the scripted response body of the in-process wire.
 type c12Body struct {
+	fat        bool // responses of 8 chunks and more
 	ctx        context.Context
 	abort      chan struct{}
 	left       int
@@ -430,6 +440,13 @@ func (b *c12Body) Read(p []byte) (int, error) {
 		b.mu.Unlock()
 		if b.onRead != nil {
 			b.onRead(n)
+		}
+		if b.fat {
+			// a long body: every read fills the caller's buffer (a drain has far more than a few bytes to go through)
+			for i := range p {
+				p[i] = 'a'
+			}
+			return len(p), nil
 		}
 		return copy(p, c12Chunk), nil
 	}
@@ -607,7 +624,7 @@ func (w *c12Wire) RoundTrip(req *http.Request) (*http.Response, error) {
 		c12Wait(ctx, w.abort)
 		return nil, c12CtxErr(ctx)
 	}
-	b := &c12Body{ctx: ctx, abort: w.abort, left: p.respChunks, term: p.respTerm}
+	b := &c12Body{ctx: ctx, abort: w.abort, left: p.respChunks, term: p.respTerm, fat: p.respChunks >= 8}
 	if p.cancel == 'r' {
 		b.onRead = func(n int) {
 			if n == 1 {
@@ -679,9 +696,9 @@ func c12RealServer(p *c12Plan, release chan struct{}) *httptest.Server {
 // behind the upload files.
 type c12Opts struct {
 	warm, warmAfterReuse, defaultAuth, leaveDefaultTimeout, wrapCtx bool
-	method, contentType                                                string
-	status, buffered                                                   int
-	ownFileType                                                        bool
+	method, contentType                                             string
+	status, buffered                                                int
+	ownFileType                                                     bool
 }
 
 func c12OptsOf(in []string) c12Opts {
@@ -949,6 +966,9 @@ func c12ExecF(in []string) []string {
 		op.AuthInfo = runtime.ClientAuthInfoWriterFunc(func(req runtime.ClientRequest, _ strfmt.Registry) error {
 			if a >= 3 {
 				_ = req.GetBody()
+				if p.form%2 == 0 {
+					_ = req.GetBody() // a signing writer may ask more than once: the answer (and a failure) stays
+				}
 			}
 			if a == 2 || a == 4 {
 				return errC12Auth
@@ -1399,6 +1419,12 @@ func c12SweepF(emit func(in ...string), maxReads int) {
 					}
 					e(c12F(body[0], body[1], body[2], body[3], early[0], early[1], early[2], tr, "r1e", "qao", reuse, c12Long, "cn", "xi"))
 				}
+			}
+		}
+		// a long response (every read fills the buffer: some hundred KiB) left unread by the reader: drained on close
+		for _, k := range []int{10, 14, 40} {
+			for _, rd := range []string{"q0o", "q1o", "q3o", "qao", "q1r"} {
+				e(c12F("g", "h0", "m0", "pn", "w0", "a0", "u0", "tf", fmt.Sprintf("r%de", k), rd, reuse, c12Long, "cn", "xi"))
 			}
 		}
 		// truncation / reset of a short response at every offset x how far the reader reads
